@@ -1,0 +1,22 @@
+//go:build verif
+
+package test
+
+import (
+	"time"
+
+	"github.com/thought-machine/please/src/core"
+)
+
+// This file only exports unexported things for the /verif conformance harness.
+// It is compiled with -tags verif only.
+
+// VerifParseResults parses the contents of the result files of one test run exactly as the test step does.
+func VerifParseResults(data [][]byte) (core.TestSuite, error) {
+	return parseTestResults(data)
+}
+
+// VerifParseTestOutput interprets one test run (exit status + result files) exactly as doTest does.
+func VerifParseTestOutput(stdout, stderr string, runError error, duration time.Duration, target *core.BuildTarget, resultsData [][]byte) core.TestSuite {
+	return parseTestOutput(stdout, stderr, runError, duration, target, resultsData)
+}
